@@ -272,4 +272,85 @@ theorem c17_string_sound (f g : F → List Nat) (s : Src) (bs : List Nat) (h : t
   | nilptr => cases h
   | other => cases h
 
+/-! ## An independent reading of "the text, trimmed" for ASCII text (round 4c, audit LOW: "`TextInt` is defined via
+     the model's own `trimSpace`")
+
+  For a text of the shape `l ++ core ++ r` — `l`, `r` runs of the six ASCII blanks, `core` printable non-blank
+  ASCII — the integer reading is stated on `core` directly, with no reference to `trimSpace`. -/
+
+def AsciiBlank (b : Nat) : Prop := b = 9 ∨ b = 10 ∨ b = 11 ∨ b = 12 ∨ b = 13 ∨ b = 32
+
+theorem spaceAtHead_blank (b : Nat) (rest : List Nat) (h : AsciiBlank b) : spaceAtHead (b :: rest) = 1 := by
+  rcases h with rfl | rfl | rfl | rfl | rfl | rfl <;> rfl
+
+theorem spaceAtEndRev_blank (b : Nat) (rest : List Nat) (h : AsciiBlank b) : spaceAtEndRev (b :: rest) = 1 := by
+  rcases h with rfl | rfl | rfl | rfl | rfl | rfl <;> rfl
+
+theorem stripWith_blanks (f : List Nat → Nat) (hf : ∀ b rest, AsciiBlank b → f (b :: rest) = 1) (l rest : List Nat)
+    (hl : ∀ b ∈ l, AsciiBlank b) (fuel : Nat) (hfuel : l.length ≤ fuel) :
+    stripWith f fuel (l ++ rest) = stripWith f (fuel - l.length) rest := by
+  induction l generalizing fuel with
+  | nil => simp
+  | cons b l ih =>
+    cases fuel with
+    | zero => simp at hfuel
+    | succ k =>
+      have h1 := hf b (l ++ rest) (hl b (List.mem_cons_self ..))
+      have hk : l.length ≤ k := by simpa using hfuel
+      simp only [List.cons_append, stripWith, h1, List.drop_succ_cons, List.drop_zero, List.length_cons]
+      rw [ih (fun c hc => hl c (List.mem_cons_of_mem _ hc)) k hk]
+      congr 1; omega
+
+theorem stripWith_nil (f : List Nat → Nat) (h0 : f [] = 0) (fuel : Nat) : stripWith f fuel [] = [] :=
+  stripWith_zero f fuel [] h0
+
+/-- **`TrimSpace` on ASCII text, against the shape of the text**: blanks on either side go, the core stays. -/
+theorem trimSpace_ascii_frame (l core r : List Nat) (hl : ∀ b ∈ l, AsciiBlank b) (hr : ∀ b ∈ r, AsciiBlank b)
+    (hc : ∀ b ∈ core, 33 ≤ b ∧ b ≤ 127) : trimSpace (l ++ core ++ r) = core := by
+  unfold trimSpace
+  have h1 : stripWith spaceAtHead (l ++ core ++ r).length (l ++ core ++ r) = core ++ r ∨
+      (core = [] ∧ stripWith spaceAtHead (l ++ core ++ r).length (l ++ core ++ r) = []) := by
+    rw [List.append_assoc, stripWith_blanks _ spaceAtHead_blank l (core ++ r) hl _ (by simp)]
+    cases core with
+    | nil =>
+      right
+      refine ⟨rfl, ?_⟩
+      have := stripWith_blanks _ spaceAtHead_blank r [] hr ((l ++ ([] ++ r)).length - l.length) (by simp)
+      simp only [List.append_nil, List.nil_append] at this ⊢
+      rw [this]
+      exact stripWith_nil _ rfl _
+    | cons b cs =>
+      left
+      exact stripWith_zero _ _ _ (spaceAtHead_ascii b _ (hc b (List.mem_cons_self ..)))
+  rcases h1 with h1 | ⟨hnil, h1⟩
+  · simp only [h1]
+    rw [List.reverse_append]
+    rw [stripWith_blanks _ spaceAtEndRev_blank r.reverse core.reverse (fun b hb => hr b (List.mem_reverse.mp hb)) _ (by simp)]
+    have : stripWith spaceAtEndRev ((core ++ r).length - r.reverse.length) core.reverse = core.reverse := by
+      cases hcr : core.reverse with
+      | nil => exact stripWith_nil _ rfl _
+      | cons b rest =>
+        have hb : b ∈ core := by
+          have : b ∈ core.reverse := by rw [hcr]; exact List.mem_cons_self ..
+          exact List.mem_reverse.mp this
+        exact stripWith_zero _ _ _ (spaceAtEndRev_ascii b rest (hc b hb))
+    rw [this, List.reverse_reverse]
+  · subst hnil
+    rw [h1]
+    rfl
+
+/-- **Integer text, read on the text itself** (ASCII): what `ToInt64` returns for `blanks core blanks` is 0 when the core
+    is empty and otherwise the value of the decimal numeral `core` — no `trimSpace` in the statement. -/
+theorem c17_int64_text_sound_ascii (l core r : List Nat) (nm : String) (p q : Option F) (n : Int)
+    (hl : ∀ b ∈ l, AsciiBlank b) (hr : ∀ b ∈ r, AsciiBlank b) (hc : ∀ b ∈ core, 33 ≤ b ∧ b ≤ 127)
+    (h : toInt64 (.str (StrInfo.ofText (l ++ core ++ r) nm p q)) = .ok n) :
+    ((core = [] ∧ n = 0) ∨ Denotes core n) ∧ IntTy.i64.inRange n := by
+  have ⟨ht, hrange⟩ := c17_int64_text_sound (l ++ core ++ r) nm p q n h
+  unfold TextInt at ht
+  rw [trimSpace_ascii_frame l core r hl hr hc] at ht
+  exact ⟨ht, hrange⟩
+
+example : toInt64 (.str (StrInfo.ofText ([32, 9] ++ [45, 52, 50] ++ [10]) "" none none)) = .ok (-42) := by decide
+
+
 end Gozod.C17T
